@@ -167,6 +167,7 @@ func genC11(r *Rng, tier string) *C11Scn {
 		keys = spec.Keys
 		mix.Complete = spec.complete()
 		mix.IntWidth = intWidth(spec.Enc, spec.ValIDs != nil)
+		mix.Index = spec.Enc == "i64"
 		mix.Small = len(keys) <= 300
 	}
 	if mix.Small {
@@ -781,6 +782,7 @@ func executeC11Once(scn *Scenario) *RunResult {
 			}
 		})
 	}
+	indexOf(subject) // the index over the subject exists before anybody reads through it
 	sim.run()
 
 	res.Steps = sim.steps
